@@ -363,26 +363,32 @@ def run_workflow(case):
             for j, (kk, vv) in enumerate(mm):
                 if kk[:1] != b"\x02":
                     continue
-                for how in ("s+1", "other-msg"):
+                for how in ("s+1", "other-msg", "s+1/ht02", "s+1/ht03", "s+1/ht81", "other-msg/ht83", "same-rs/ht02", "same-rs/ht03", "same-rs/ht81"):
                     rs = ec.der_parse_strict(vv[:-1])
                     if rs is None:
                         continue
-                    if how == "s+1":
-                        nv = ec.der_sig(rs[0], (rs[1] % (curve.n - 1)) + 1 if (rs[1] % (curve.n - 1)) + 1 != rs[1] else 1) + vv[-1:]
+                    # the altered signature keeps its sighash byte, or carries another standard one
+                    htb = bytes([int(how.split("/ht")[1], 16)]) if "/ht" in how else vv[-1:]
+                    if how.startswith("same-rs"):
+                        # the untouched (r, s) under another sighash byte: it signs the SIGHASH_ALL digest, not the one its byte names
+                        nv = vv[:-1] + htb
+                    elif how.startswith("s+1"):
+                        nv = ec.der_sig(rs[0], (rs[1] % (curve.n - 1)) + 1 if (rs[1] % (curve.n - 1)) + 1 != rs[1] else 1) + htb
                     else:
-                        nv = ec.der_sig(rs[1], rs[0]) + vv[-1:] if rs[0] != rs[1] else ec.der_sig(rs[0], (rs[1] + 2) % curve.n or 1) + vv[-1:]
+                        nv = (ec.der_sig(rs[1], rs[0]) if rs[0] != rs[1] else ec.der_sig(rs[0], (rs[1] + 2) % curve.n or 1)) + htb
                     r2 = psbtref.parse(raw)
                     r2["ins"][ii][j] = (kk, nv)
                     # is the altered signature really invalid? (on toy groups it may verify by chance)
                     Q = curve.parse_sec(kk[1:])
-                    z = psbt_digest(W, cfg, r2["tx"], ii)
+                    z = psbt_digest(W, cfg, r2["tx"], ii, htb[0])
                     nrs = ec.der_parse_strict(nv[:-1])
                     if Q is not None and nrs and curve.ecdsa_verify(Q, z, nrs[0], nrs[1]):
                         res.ok("altered partial signature still verifies (toy collision): not asserted")
                         continue
                     got = attempt(parse_lib, psbtref.serialize(r2))
                     if not isinstance(got, Rejected):
-                        res.violation(f"C10/{eng}/bad-partial-sig-accepted/{cfg['stype']}", vc, "parsed", "rejected", f"{label}: partial signature that does not verify ({how}) is accepted when the PSBT is loaded")
+                        cls = "bad-partial-sig-accepted" if not how.startswith("same-rs") else "partial-sig-checked-against-SIGHASH_ALL-whatever-its-sighash-byte"
+                        res.violation(f"C10/{eng}/{cls}/{cfg['stype']}", vc, "parsed", "rejected", f"{label}: partial signature that does not verify ({how}) is accepted when the PSBT is loaded")
                     else:
                         res.ok("bad partial signature rejected at load", nontrivial=(label, "badsig", tuple(sorted(S)), ii, j, how))
     # ---- transitions
@@ -447,16 +453,16 @@ def abstract(ltx):
     }
 
 
-def psbt_digest(W, cfg, tx, ii):
-    """Reference digest a partial signature of input ii must sign (SIGHASH_ALL)."""
+def psbt_digest(W, cfg, tx, ii, ht=1):
+    """Reference digest a partial signature of input ii with sighash byte ht must sign."""
     st = cfg["stype"]
     spk = W.spks[ii].raw_serialize()
     utx = dict(tx, segwit=False)
     if st == "p2pkh":
-        return int.from_bytes(txref.sighash_legacy(utx, ii, spk, 1), "big")
+        return int.from_bytes(txref.sighash_legacy(utx, ii, spk, ht), "big")
     if st == "p2sh":
         sc = [r for r in W.redeem_lookup.values() if r.script_pubkey().raw_serialize() == spk][0].raw_serialize()
-        return int.from_bytes(txref.sighash_legacy(utx, ii, sc, 1), "big")
+        return int.from_bytes(txref.sighash_legacy(utx, ii, sc, ht), "big")
     if st in ("p2wpkh", "p2sh-p2wpkh"):
         h = [x for x in W.pubkey_lookup.values()]
         # script code of P2WPKH: the P2PKH script of the key hash committed to by this input
@@ -475,7 +481,7 @@ def psbt_digest(W, cfg, tx, ii):
             if st == "p2sh-p2wsh" and b"\xa9\x14" + txref.h160(prog) + b"\x87" == spk:
                 ws = w
         sc = ws.raw_serialize()
-    return int.from_bytes(txref.sighash_bip143(utx, ii, sc, W.amount, 1), "big")
+    return int.from_bytes(txref.sighash_bip143(utx, ii, sc, W.amount, ht), "big")
 
 
 def engines(tier, seed):
